@@ -34,7 +34,7 @@ def families(rng, L, count):
     nonnull = [i for i in range(n) if sig[i] != 0]
     out = []
     for _ in range(count):
-        fam = rng.choice(['dense', 'versor', 'blade', 'scalar_ps', 'near_scalar', 'scalar', 'sparse'])
+        fam = rng.choice(['dense', 'versor', 'blade', 'scalar_ps', 'near_scalar', 'scalar', 'sparse', 'kvector', 'kvector'])
         if fam == 'dense':
             v = gen.int_mv(rng, N, 'dense', -3, 3)
         elif fam == 'sparse':
@@ -59,6 +59,17 @@ def families(rng, L, count):
             idx = int(L._basis_blade_order.bitmap_to_index[bm])
             v = [0] * N
             v[idx] = int(rng.choice([1, -1, 2, 3]))
+        elif fam == 'kvector' and n >= 1:
+            # a single-grade multivector that is in general NOT a blade (e.g. e12 + 2 e34): ~M*M is not scalar
+            k = int(rng.integers(1, n + 1))
+            gr = [int(g) for g in L._basis_blade_order.grades]
+            idxs = [i for i in range(N) if gr[i] == k]
+            v = [0] * N
+            for i in idxs:
+                if rng.random() < 0.6:
+                    v[i] = int(rng.integers(-3, 4))
+            if not any(v):
+                v[idxs[0]] = 1
         elif fam == 'scalar_ps':
             v = [0] * N
             v[0] = int(rng.integers(1, 5))
@@ -213,7 +224,7 @@ def check_layout(res, L, rng, tag, tier, jit, count):
                          tol * max(1, norm1(common.exact_list(B.value)))):
                 res.violate('A/B is not A times the exact inverse of B', dict(inp, A=B.value.tolist()), q.value.tolist(), None, dict(site, op='div-exact'))
             # powers
-            k = int(rng.integers(-3, 5))
+            k = int(rng.choice([-6, -5, -3, -2, -1, 0, 1, 2, 3, 5, 6, 7, 9, 11]))
             res.case(('pow', tag, k, str(ex)), nontrivial=nt)
             res.count('pow_neg' if k < 0 else ('pow_zero' if k == 0 else 'pow_pos'))
             P = Mf ** k
